@@ -78,6 +78,14 @@ def run(pid, tier, seed):
             tz_min = rng.choice([0, 0, 540, -480, 330])
             wraps = rng.choice([0, 0, 1, 1, 2, 3])
             locs = make_series(rng, rng.choice([1, 2, 3, 6, 12, 30]), wraps, tz_min)
+            # always included: a 29 February message whose predecessor lies in the year before (the last message is in
+            # the leap year itself, so this is not the documented Issue #245 exclusion)
+            forced = [[(2023, 6, 30, 23, 6, 7), (2024, 2, 29, 23, 6, 7), (2024, 12, 2, 23, 6, 7)],
+                      [(2023, 12, 31, 23, 0, 0), (2024, 2, 29, 0, 0, 0), (2024, 2, 29, 12, 0, 0)],
+                      [(2019, 3, 1, 1, 2, 3), (2019, 11, 5, 1, 2, 3), (2020, 2, 29, 4, 5, 6), (2020, 3, 1, 0, 0, 1)]]
+            if fi < len(forced):
+                locs = [calendar.timegm(x + (0, 0, 0)) for x in forced[fi]]
+                wraps = 1
             if not locs:
                 continue
             letter = "A"
